@@ -260,6 +260,11 @@ def build():
                  "_table_id": ex.fresh("int", "table_id"), "row": ex.fresh("int", "row"), "col": ex.fresh("int", "col")}
             for a in list(ATTR_BIT) + ["_formula_error_id"]:
                 f[a] = ex.fresh("optint", a)
+            # state a cell carries from an earlier decode (the flags word of the record it was read from, any value): the encoder's flags
+            # word must be built from the attributes alone
+            f["_flags"] = ex.fresh("int", "flags_of_the_decoded_record")
+            f["_extras"] = ex.fresh("int", "extras_of_the_decoded_record")
+            ex.assume(z3.And(f["_flags"].t >= 0, f["_flags"].t < 2 ** 21, f["_extras"].t >= 0, f["_extras"].t < 2 ** 16))
             if kind in ("number", "currency"):
                 f["_value"] = ex.fresh("float", "value")
                 f["_type"] = 101 if kind == "currency" else 2
